@@ -834,6 +834,11 @@ class IsoHybrid:
             self.efi_count = 0  # this will be set later
             self.primary_gpt.new(self.mac)
             self.secondary_gpt.new(self.mac)
+            # The backup GPT describes the same disk and the same partitions
+            # as the primary, so it carries the same GUIDs.
+            self.secondary_gpt.header.disk_guid = self.primary_gpt.header.disk_guid
+            for ppart, spart in zip(self.primary_gpt.parts, self.secondary_gpt.parts):
+                spart.part_guid = ppart.part_guid
 
         self._initialized = True
 
@@ -989,3 +994,5 @@ class IsoHybrid:
 
         self.primary_gpt.parts[2].first_lba = current_extent * 4
         self.primary_gpt.parts[2].last_lba = (current_extent * 4) + sector_count - 1
+        self.secondary_gpt.parts[2].first_lba = current_extent * 4
+        self.secondary_gpt.parts[2].last_lba = (current_extent * 4) + sector_count - 1
